@@ -10,6 +10,7 @@ import Rmk.Impl.Misc
 import Rmk.Impl.Store
 import Rmk.Spec.Obj
 import Rmk.Impl.Virtual
+import Rmk.Impl.Heap
 import Driver.Sexp
 namespace Driver
 open Rmk
@@ -172,6 +173,25 @@ def runTreeCmd (n : Node) (k : Nat) (cmd : Sexp) : Option String :=
     let ps := probes.map fun q => optStr (fun m => hexOf (Virtual.MNode.root H m)) (r.bind fun r => Virtual.getterM src r q)
     pure (join [kv (p ++ ".vset") (optStr (fun m => hexOf (Virtual.MNode.root H m)) r),
       kv (p ++ ".vprobes") (String.intercalate "," ps)])
+  | .list [.atom "hcost", g, e, v] => do
+    -- the heap model: hash calls for the first root, a second root, and the root after a write
+    let g ← atomNat g
+    let e ← atomNat e
+    let v ← toTree H v
+    if g = 0 then pure (kv (p ++ ".hcost") "err") else
+    let (h1, a) := Heap.ofNode Heap.empty n
+    let (h2, _) := Heap.merkleRoot H h1 a
+    let c1 := h2.hashCalls
+    let (h3, _) := Heap.merkleRoot H h2 a
+    let c2 := h3.hashCalls - c1
+    let (h4, va) := Heap.ofNode h3 v
+    match Heap.setPathH H (e != 0) h4 a (gbits g) va with
+    | none => pure (kv (p ++ ".hcost") (toString c1 ++ "/" ++ toString c2 ++ "/err"))
+    | some (h5, a') =>
+      let (h6, r) := Heap.merkleRoot H h5 a'
+      let newPairs := ((h5.cells.toList.drop h4.cells.size).filter fun c => match c with | .pair _ _ _ => true | _ => false).length
+      pure (kv (p ++ ".hcost") (toString c1 ++ "/" ++ toString c2 ++ "/" ++ toString (h6.hashCalls - h3.hashCalls)
+        ++ "/" ++ hexOf r ++ "/" ++ toString newPairs))
   | .list [.atom "summ", g] => do
     let g ← atomNat g
     let r := summarizeInto H n g
